@@ -109,7 +109,8 @@ func checkC18(r *Run) {
 					own = p
 				}
 			}
-			if own == nil || c.Resolve(rc.Call.Args[1]) != own {
+			_, rcCtxIdx := ctxParam(a.ReqCtx)
+			if own == nil || rcCtxIdx < 0 || rcCtxIdx >= len(rc.Call.Args) || c.Resolve(rc.Call.Args[rcCtxIdx]) != own {
 				r1.Bad(key, rc.Pos(), "the request context is not derived from the function's own context parameter")
 				return
 			}
@@ -149,12 +150,17 @@ func checkC18(r *Run) {
 
 	// R-C18-2
 	rcF := a.ReqCtx
+	rcCtx, _ := ctxParam(rcF)
+	if rcCtx == nil {
+		r2.Lost("requestContext/ctx", "requestContext has no context parameter")
+		return
+	}
 	okRC := false
 	var timeoutRet *ssa.Return
 	wrapT := ""
 	for _, ret := range returnsOf(rcF) {
 		v := c.Resolve(c.RetVal(ret, 0))
-		if v == ssa.Value(rcF.Params[1]) {
+		if v == ssa.Value(rcCtx) {
 			// pass-through: only when ResponseTimeout == 0
 			dom := false
 			for _, b := range rcF.Blocks {
@@ -166,7 +172,7 @@ func checkC18(r *Run) {
 				if !ok {
 					continue
 				}
-				if _, isRT := isFieldLoad(bin.X, "RetryClient", "ResponseTimeout"); !isRT {
+				if !c.isResponseTimeout(rcF, bin.X) {
 					continue
 				}
 				if k, ok := constInt(bin.Y); !ok || k != 0 {
@@ -235,7 +241,7 @@ func checkC18(r *Run) {
 			}
 			return false
 		}
-		if wt != nil && isStdCall(&wt.Call, "context", "WithCancel") && wt.Call.Args[0] == ssa.Value(rcF.Params[1]) {
+		if wt != nil && isStdCall(&wt.Call, "context", "WithCancel") && wt.Call.Args[0] == ssa.Value(rcCtx) {
 			// WithCancel armed by time.AfterFunc(ResponseTimeout, cancel)
 			armed := false
 			cf := cancelOf(wt)
@@ -244,7 +250,7 @@ func checkC18(r *Run) {
 				if !ok || !isStdCall(&k.Call, "time", "AfterFunc") || len(k.Call.Args) != 2 {
 					return
 				}
-				if _, isRT := isFieldLoad(c.Resolve(k.Call.Args[0]), "RetryClient", "ResponseTimeout"); !isRT {
+				if !c.isResponseTimeout(rcF, k.Call.Args[0]) {
 					return
 				}
 				if cf != nil && c.Resolve(k.Call.Args[1]) == cf && Dominated(rcF, ret, func(y ssa.Instruction) bool { return y == x }, PathQ{}) {
@@ -261,11 +267,11 @@ func checkC18(r *Run) {
 			r2.Bad("requestContext/timeout", ret.Pos(), "the request context is not derived with context.WithTimeout: it never expires")
 			continue
 		}
-		if wt.Call.Args[0] != ssa.Value(rcF.Params[1]) {
+		if wt.Call.Args[0] != ssa.Value(rcCtx) {
 			r2.Bad("requestContext/timeout", wt.Pos(), "WithTimeout is not derived from the caller's context")
 			continue
 		}
-		if _, isRT := isFieldLoad(wt.Call.Args[1], "RetryClient", "ResponseTimeout"); !isRT {
+		if !c.isResponseTimeout(rcF, wt.Call.Args[1]) {
 			r2.Bad("requestContext/timeout", wt.Pos(), "the timeout operand is not ResponseTimeout")
 			continue
 		}
